@@ -249,7 +249,12 @@ func (w *world) write(op wop, proc int) wres {
 	case "set":
 		v := w.newVal("", proc)
 		res.tag = v.DefaultString
-		_, err = w.val.Set(v)
+		if v.DefaultInt32%2 == 0 {
+			v.DefaultInt64 = 4242
+			_, err = w.val.Set(v, resource.WithUpdatePaths("default_string", "default_int32"))
+		} else {
+			_, err = w.val.Set(v)
+		}
 	case "add":
 		v := w.newVal(op.ID, proc)
 		res.tag = v.DefaultString
@@ -257,7 +262,14 @@ func (w *world) write(op wop, proc int) wres {
 	case "update":
 		v := w.newVal(op.ID, proc)
 		res.tag = v.DefaultString
-		_, err = w.col.Update(op.ID, v)
+		if v.DefaultInt32%2 == 0 {
+			// every other update is a partial one: the written message carries a field the mask does not name, which must
+			// neither be stored nor show up in the event (the event carries the committed value, not the request)
+			v.DefaultInt64 = 4242
+			_, err = w.col.Update(op.ID, v, resource.WithUpdatePaths("default_string", "default_int32"))
+		} else {
+			_, err = w.col.Update(op.ID, v)
+		}
 	case "upsert":
 		v := w.newVal(op.ID, proc)
 		res.tag = v.DefaultString
@@ -549,6 +561,7 @@ func run(r *vk.Run) {
 	zeroBodies(r)
 	toleranceDrift(r)
 	deadOnArrival(r)
+	joinEmptied(r)
 	stress(r)
 	r.Require("forced-scenarios-run", 100)
 	r.Require("stress-runs", 100)
@@ -1268,6 +1281,111 @@ func deadOnArrival(r *vk.Run) {
 		}
 	}
 	r.Require("dead-on-arrival-scenarios", 10)
+}
+
+// joinEmptied (F10): the only item x has just been deleted, but the REMOVE is not published yet (its writer waits for
+// its turn behind an update whose publication is held up); now PullID(x) / Pull is opened on the emptied collection.
+// A seeded subscriber's (empty) seed places it after both commits: the stale REMOVE must not end its PullID, and once x
+// is created again and written, its view is what Get returns. (An updates-only subscriber has no seed; it may be
+// ordered before the two writes still in flight, so for it the removal may legitimately end a PullID.)
+func joinEmptied(r *vk.Run) {
+	sched := vk.NewSched()
+	defer sched.Close()
+	idx := 0
+	for _, kind := range []string{"pullid", "pull"} {
+		for _, bp := range []bool{true, false} {
+			for _, uo := range []bool{false, true} {
+				idx++
+				if !r.Mine(idx) {
+					continue
+				}
+				col := resource.NewCollection(resource.WithClock(clk{}), resource.WithInitialRecord("x", &tat{DefaultString: "x#0", DefaultInt32: 1}))
+				ctx, cancel := context.WithCancel(context.Background())
+				park := sched.ParkAt("col.update.beforePublish", nil)
+				t1 := vk.Go(func() { col.Update("x", &tat{DefaultString: "x#1", DefaultInt32: 2}) })
+				vk.Quiesce()
+				reached := park.Arrived()
+				t2 := vk.Go(func() { col.Delete("x") })
+				vk.Quiesce()
+				ro := []resource.ReadOption{resource.WithBackpressure(bp), resource.WithUpdatesOnly(uo)}
+				var mu sync.Mutex
+				var last *tat
+				present, closed := false, false
+				if kind == "pullid" {
+					ch := col.PullID(ctx, "x", ro...)
+					go func() {
+						for e := range ch {
+							mu.Lock()
+							last, present = asTat(e.Value), true
+							mu.Unlock()
+						}
+						mu.Lock()
+						closed = true
+						mu.Unlock()
+					}()
+				} else {
+					ch := col.Pull(ctx, ro...)
+					go func() {
+						for e := range ch {
+							if e.Id != "x" {
+								continue
+							}
+							mu.Lock()
+							if e.ChangeType == types.ChangeType_REMOVE {
+								last, present = nil, false
+							} else {
+								last, present = asTat(e.NewValue), true
+							}
+							mu.Unlock()
+						}
+					}()
+				}
+				vk.Quiesce()
+				park.Release()
+				vk.Quiesce()
+				t3 := vk.Go(func() {
+					col.Add("x", &tat{DefaultString: "x#2", DefaultInt32: 3})
+					col.Update("x", &tat{DefaultString: "x#3", DefaultInt32: 4})
+				})
+				gs, ok := r.MustQuiesce("c03-join-emptied")
+				if !ok {
+					cancel()
+					return
+				}
+				r.Eval(1)
+				r.Count("join-emptied-scenarios", 1)
+				if reached {
+					r.Distinct(fmt.Sprintf("joinemptied|%s|%v|%v", kind, bp, uo))
+				}
+				mode := map[bool]string{true: "bp", false: "lossy"}[bp]
+				key := "C03/fold/" + kind + "/" + mode + "/join-emptied"
+				desc := fmt.Sprintf("collection {x}: Update(x) committed and held up before publishing, Delete(x) committed and queued behind it, then %s (updates-only %v) is opened, the writers are released, x is added again and updated", kind, uo)
+				replay := map[string]any{"kind": kind, "bp": bp, "updatesOnly": uo}
+				if !t1.Done() || !t2.Done() || !t3.Done() {
+					r.Violation(key+"/writer-stuck", fmt.Sprintf("%s: a writer has not returned at the quiescent point\n%s", desc, vk.DescribeGs(vk.LibraryGoroutines(gs, nil))), replay)
+					cancel()
+					return
+				}
+				stored, _ := col.Get("x")
+				mu.Lock()
+				h, has, cl := last, present, closed
+				mu.Unlock()
+				switch {
+				case cl && uo:
+					// an updates-only subscription has no seed that would place it after the two pending writes: both are still
+					// in flight when it is opened, so it may be ordered before them, and then the removal ends it. Counted.
+					r.Count("join-emptied/updates-only-pullid-ended-by-the-pending-remove", 1)
+				case cl:
+					r.Violation(key+"/closed", fmt.Sprintf("%s: the PullID channel was closed although x was not removed after it subscribed; Get returns %s", desc, vk.JSON(stored)), replay)
+				case !has || !proto.Equal(h, stored):
+					r.Violation(key, fmt.Sprintf("%s: the subscriber's view of x is %s, Get returns %s", desc, vk.JSON(h), vk.JSON(stored)), replay)
+				}
+				cancel()
+				vk.Quiesce()
+			}
+		}
+	}
+	r.Require("join-emptied-scenarios", 2)
 }
 
 // zeroBodies (F7): items created with a body that has nothing set (the zero message), Values set to the zero
